@@ -51,7 +51,10 @@ def run_tlc(module, cfg=None, env=None, workers=16, timeout=600, simulate=None,
     res = TLCResult()
     meta = tempfile.mkdtemp(prefix="tlc_meta_")
     cfg = cfg or (module + ".cfg")
-    cmd = ["java", "-Xmx" + heap, "-XX:+UseParallelGC", "-XX:ParallelGCThreads=4"]
+    # TLC unpacks its standard modules into java.io.tmpdir on every run: keep that inside the run's own scratch directory
+    jtmp = os.path.join(meta, "jtmp")
+    os.makedirs(jtmp, exist_ok=True)
+    cmd = ["java", "-Xmx" + heap, "-XX:+UseParallelGC", "-XX:ParallelGCThreads=4", "-Djava.io.tmpdir=" + jtmp]
     if dfs:
         cmd.append("-Dtlc2.tool.queue.IStateQueue=StateDeque")
     liblist = list(libs)
